@@ -114,3 +114,274 @@ def run(ctx):
         okk = ins and n_.id in dom[rets[0].id] and isinstance(n_.ast, ast.Assign) and isinstance(rets[0].ast.value, ast.Tuple) \
             and src(rets[0].ast.value.elts[0]) == src(n_.ast.targets[0])
     ctx.check("R18.2", f"{dlr.key}::every returned residual passes through the zero insertion", okk, None, dlr)
+
+
+def _lin(e, atoms, ops):
+    """linear normal form over atoms: {term: Fraction}; term = atom name or (op, atom). None if not understood"""
+    from fractions import Fraction
+
+    def add(a, b, sg=1):
+        out = dict(a)
+        for k, v in b.items():
+            out[k] = out.get(k, 0) + sg * v
+            if out[k] == 0:
+                del out[k]
+        return out
+    if isinstance(e, ast.Name) and e.id in atoms:
+        return {atoms[e.id]: Fraction(1)}
+    if isinstance(e, ast.UnaryOp) and isinstance(e.op, ast.USub):
+        a = _lin(e.operand, atoms, ops)
+        return None if a is None else {k: -v for k, v in a.items()}
+    if isinstance(e, ast.BinOp) and isinstance(e.op, (ast.Add, ast.Sub)):
+        a, b = _lin(e.left, atoms, ops), _lin(e.right, atoms, ops)
+        return None if a is None or b is None else add(a, b, 1 if isinstance(e.op, ast.Add) else -1)
+    if isinstance(e, ast.BinOp) and isinstance(e.op, ast.Mult):
+        for c, x in ((e.left, e.right), (e.right, e.left)):
+            if isinstance(c, ast.Constant) and isinstance(c.value, (int, float)) and not isinstance(c.value, bool):
+                a = _lin(x, atoms, ops)
+                return None if a is None else {k: v * Fraction(c.value) for k, v in a.items() if v * Fraction(c.value) != 0}
+    if isinstance(e, ast.Call) and src(e.func) in ops and len(e.args) == 1 and not e.keywords:
+        a = _lin(e.args[0], atoms, ops)
+        if a is None:
+            return None
+        out = {}
+        for k, v in a.items():
+            if not isinstance(k, str):
+                return None
+            for o_, w in ops[src(e.func)].items():
+                out[(o_, k)] = out.get((o_, k), 0) + v * w
+        return {k: v for k, v in out.items() if v != 0}
+    return None
+
+
+def r18_3(ctx, m):
+    """assembly of the linear residual: a metric-distributed right-hand side, solved with that metric at the same point"""
+    from fractions import Fraction
+    ctx.rule("R18.3", "linear residuals are M^-1 applied to a draw with covariance M = L + P, built from independent draws: "
+                      "nifty.re draw_linear_residual adds left_sqrt_metric(pos, white noise of the data-space shape) and a standard "
+                      "normal draw of the liquid position's shape, drawn with the two halves of ONE key split, and solves with "
+                      "likelihood.metric + identity at the same position (CG failure raises); classic SamplingEnabler draws s from "
+                      "P^-1 and n from L, solves (L+P) x = P s + n starting at s with the matching initial gradient L s - n "
+                      "(or draws from L+P directly and starts at 0), and returns the CG position", floor=10)
+    # ---- JAX
+    dlr = m.func(EVI, "draw_linear_residual")
+    ctx.saw_func(dlr)
+    stmts = sorted((s_ for s_ in walk_no_nested(dlr.node) if isinstance(s_, ast.stmt)), key=lambda s_: s_.lineno)
+    par = dlr.params()
+    lh, pos, keyn = par[0], par[1], par[2]
+    asg = {}
+    for st in stmts:
+        if isinstance(st, ast.Assign) and len(st.targets) == 1:
+            asg.setdefault(src(st.targets[0]), []).append(st)
+    split = [st for st in stmts if isinstance(st, ast.Assign) and isinstance(st.value, ast.Call) and call_name(st.value) == "split"
+             and isinstance(st.targets[0], ast.Tuple)]
+    key = f"{dlr.key}::one split of `{keyn}` into two sub-keys"
+    if len(split) != 1 or len(split[0].targets[0].elts) != 2:
+        ctx.und("R18.3", key, f"{len(split)} key splits", dlr)
+        return
+    k1, k2 = [src(e) for e in split[0].targets[0].elts]
+    ctx.check("R18.3", key, src(split[0].value.args[0]) == keyn and k1 != k2, src(split[0]), dlr, split[0])
+    nll = [st for st in stmts if isinstance(st, ast.Assign) and isinstance(st.value, ast.Call) and call_name(st.value) == "sample_likelihood"]
+    prr = [st for st in stmts if isinstance(st, ast.Assign) and isinstance(st.value, ast.Call) and call_name(st.value) == "random_like"]
+    key = f"{dlr.key}::likelihood draw at the sampling position with one sub-key, prior draw of the liquid shape with the other"
+    if len(nll) != 1 or len(prr) != 1:
+        ctx.und("R18.3", key, f"{len(nll)} sample_likelihood / {len(prr)} random_like calls", dlr)
+        return
+
+    def kwv(c, name, posn=None):
+        for k in c.keywords:
+            if k.arg == name:
+                return src(k.value)
+        if posn is not None and len(c.args) > posn:
+            return src(c.args[posn])
+        return None
+    nk, pk = kwv(nll[0].value, "key", 3), kwv(prr[0].value, "key", 0)
+    liquid = kwv(prr[0].value, "primals", 1)
+    liq_defs = asg.get(liquid, [])
+    liq_ok = liquid == pos or (len(liq_defs) == 2 and any(src(d.value) == pos for d in liq_defs)
+                               and any(isinstance(d.targets[0], ast.Tuple) or "freeze" in src(d.value) for d in liq_defs)) \
+        or any("freeze" in src(d.value) and f"primals={pos}" in src(d.value).replace(" ", "") for st_ in stmts if isinstance(st_, ast.Assign)
+               for d in [st_] if liquid in [src(e) for e in (st_.targets[0].elts if isinstance(st_.targets[0], ast.Tuple) else [st_.targets[0]])])
+    a = [src(x) for x in nll[0].value.args[:3]]
+    ctx.check("R18.3", key, a == [lh, "point_estimates", pos] and {nk, pk} == {k1, k2} and bool(liq_ok),
+              f"{src(nll[0])}; {src(prr[0])}", dlr, nll[0])
+    # the metric-distributed sum
+    nn, pn = src(nll[0].targets[0]), src(prr[0].targets[0])
+    atoms = {nn: "n", pn: "p"}
+    for st in stmts:  # plain aliases
+        if isinstance(st, ast.Assign) and isinstance(st.value, ast.Name) and st.value.id in atoms and isinstance(st.targets[0], ast.Name):
+            atoms[st.targets[0].id] = atoms[st.value.id]
+    solves0 = [st for st in stmts if isinstance(st, ast.Assign) and isinstance(st.targets[0], ast.Tuple) and isinstance(st.value, ast.Call)
+               and st.value.args and any(k.arg == "x0" for k in st.value.keywords)]
+    key = f"{dlr.key}::right-hand side = likelihood draw +/- prior draw (each once)"
+    if len(solves0) != 1:
+        ctx.und("R18.3", key, f"{len(solves0)} solves with a start value", dlr)
+        return
+    rhs = src(solves0[0].value.args[0])
+    rdefs = [st for st in stmts if isinstance(st, ast.Assign) and src(st.targets[0]) == rhs and st.lineno < solves0[0].lineno]
+    if len(rdefs) != 1:
+        ctx.und("R18.3", key, f"{len(rdefs)} definitions of `{rhs}` before the solve", dlr)
+        return
+    f = _lin(rdefs[0].value, atoms, {})
+    if f is None:
+        ctx.und("R18.3", key, f"`{src(rdefs[0].value)}` not understood", dlr, rdefs[0])
+        return
+    ctx.check("R18.3", key, set(f) == {"n", "p"} and all(abs(v) == 1 for v in f.values()), f"{src(rdefs[0])} reads as {f}", dlr, rdefs[0])
+    # the solve
+    hm = [st for st in stmts if isinstance(st, ast.Assign) and isinstance(st.value, ast.Call) and src(st.value.func) == "partial"
+          and any("_ham_metric" in src(a_) for a_ in st.value.args)]
+    key = f"{dlr.key}::the CG operator is _ham_metric(likelihood, point_estimates, {pos}, .)"
+    if len(hm) != 1:
+        ctx.und("R18.3", key, "ham_metric binding not found", dlr)
+    else:
+        hn = src(hm[0].targets[0])
+        bound = [src(a_) for a_ in hm[0].value.args[1:]]
+        cgp = [c for c in walk_no_nested(dlr.node) if isinstance(c, ast.Call) and src(c.func) in ("Partial", "partial") and c.args and src(c.args[0]) == hn]
+        ctx.check("R18.3", key, bound == [lh, "point_estimates"] and len(cgp) == 1 and [src(a_) for a_ in cgp[0].args[1:]] == [pos],
+                  f"{src(hm[0].value)}; {[src(c) for c in cgp]}", dlr, hm[0])
+    hmf = m.func(EVI, "_ham_metric")
+    ctx.saw_func(hmf)
+    hp = hmf.params()
+    rets = [r for r in walk_no_nested(hmf.node) if isinstance(r, ast.Return)]
+    fr = [st for st in walk_no_nested(hmf.node) if isinstance(st, ast.Assign) and "freeze" in src(st.value) and isinstance(st.targets[0], ast.Tuple)]
+    key = f"{hmf.key}::likelihood metric at the frozen-split position + identity"
+    if len(rets) != 1 or len(fr) != 1:
+        ctx.und("R18.3", key, "shape not recognised", hmf)
+    else:
+        lhn, pl = [src(e) for e in fr[0].targets[0].elts]
+        from ..terms import canon
+        want = canon(ast.parse(f"{lhn}.metric({pl}, {hp[3]}, **primals_kw) + {hp[3]}", mode="eval").body, add=True)
+        okf = f"primals={hp[2]}" in src(fr[0].value).replace(" ", "") and f"point_estimates={hp[1]}" in src(fr[0].value).replace(" ", "")
+        ctx.check("R18.3", key, canon(rets[0].value, add=True) == want and okf, f"{src(fr[0])}; {src(rets[0])}", hmf, rets[0])
+    slf = m.func(EVI, "sample_likelihood")
+    ctx.saw_func(slf)
+    sp_ = slf.params()
+    rets = [r for r in walk_no_nested(slf.node) if isinstance(r, ast.Return)]
+    fr = [st for st in walk_no_nested(slf.node) if isinstance(st, ast.Assign) and "freeze" in src(st.value) and isinstance(st.targets[0], ast.Tuple)]
+    wn = [st for st in walk_no_nested(slf.node) if isinstance(st, ast.Assign) and isinstance(st.value, ast.Call) and call_name(st.value) == "random_like"]
+    key = f"{slf.key}::left_sqrt_metric(liquid position, white noise of left_sqrt_metric_tangents_shape)"
+    if len(rets) != 1 or len(fr) != 1 or len(wn) != 1:
+        ctx.und("R18.3", key, "shape not recognised", slf)
+    else:
+        lhn, pl = [src(e) for e in fr[0].targets[0].elts]
+        w = src(wn[0].targets[0])
+        a = [src(x) for x in wn[0].value.args] + [src(k.value) for k in wn[0].value.keywords]
+        ctx.check("R18.3", key, src(rets[0].value) == f"{lhn}.left_sqrt_metric({pl}, {w})" and a == [sp_[3], f"{lhn}.left_sqrt_metric_tangents_shape"],
+                  f"{src(wn[0])}; {src(rets[0])}", slf, rets[0])
+    # result of the solve replaces the sample; failure raises
+    cfg = cfg_of(dlr)
+    solves = [st for st in stmts if isinstance(st, ast.Assign) and isinstance(st.targets[0], ast.Tuple) and isinstance(st.value, ast.Call)
+              and st.value.args and src(st.value.args[0]) == rhs]
+    key = f"{dlr.key}::from_inverse: the solve's result replaces the sample and a negative CG status raises"
+    if len(solves) != 1:
+        ctx.und("R18.3", key, f"{len(solves)} solves of `{rhs}`", dlr)
+    else:
+        tg = [src(e) for e in solves[0].targets[0].elts]
+        raises = [c for c in walk_no_nested(dlr.node) if isinstance(c, ast.Call) and call_name(c) == "conditional_raise"]
+        okr = len(raises) == 1 and f"{tg[1]} < 0" in src(raises[0].args[0])
+        ctx.check("R18.3", key, tg[0] == rhs and okr, f"{src(solves[0])}; {[src(c)[:80] for c in raises]}", dlr, solves[0])
+
+    # ---- classic
+    SE = m.cls("nifty.cl.operators.sampling_enabler", "SamplingEnabler")
+    ctx.saw_class(SE)
+    ini, sd = SE.methods["__init__"], SE.methods["special_draw_sample"]
+    ctx.saw_func(sd)
+    opdef = [st for st in walk_no_nested(ini.node) if isinstance(st, ast.Assign) and src(st.targets[0]) == "self._op"]
+    lp = ini.params()[1:3]
+    key = f"{ini.key}::the sampled operator is likelihood + prior"
+    okop = len(opdef) == 1 and _lin(opdef[0].value, {lp[0]: "L", lp[1]: "P"}, {}) == {"L": Fraction(1), "P": Fraction(1)}
+    attr_ok = all(any(isinstance(st, ast.Assign) and src(st.targets[0]) == f"self._{n_}" and src(st.value) == n_ for st in walk_no_nested(ini.node))
+                  for n_ in lp)
+    ctx.check("R18.3", key, okop and attr_ok, src(opdef[0]) if opdef else None, ini)
+    ops = {"self._op": {"L": Fraction(1), "P": Fraction(1)}, "self._likelihood": {"L": Fraction(1)}, "self._prior": {"P": Fraction(1)}}
+    handlers = [h for t in ast.walk(sd.node) if isinstance(t, ast.Try) for h in t.handlers]
+    trys = [t for t in ast.walk(sd.node) if isinstance(t, ast.Try)]
+    key = f"{sd.key}::direct path returns (op(sample), sample)"
+    if len(trys) != 1 or len(handlers) != 1:
+        ctx.und("R18.3", key, "try/except shape not recognised", sd)
+        return
+    tb = trys[0].body
+    d0 = [st for st in tb if isinstance(st, ast.Assign) and isinstance(st.value, ast.Call) and src(st.value.func) == "self._op.draw_sample"]
+    r0 = [st for st in tb if isinstance(st, ast.Return)]
+    okd = len(d0) == 1 and len(r0) == 1 and isinstance(r0[0].value, ast.Tuple) and \
+        [src(e) for e in r0[0].value.elts] == [f"self._op({src(d0[0].targets[0])})", src(d0[0].targets[0])] and \
+        src(d0[0].value.args[0]) == sd.params()[1]
+    ctx.check("R18.3", key, okd, "; ".join(src(s_) for s_ in tb), sd, trys[0])
+    hb = handlers[0].body
+    ifs = [st for st in hb if isinstance(st, ast.If) and "start_from_zero" in src(st.test)]
+    if len(ifs) != 1:
+        ctx.und("R18.3", f"{sd.key}::iterative path", "start_from_zero branch not found", sd)
+        return
+
+    def branch(body, label):
+        draws = {}
+        for st in body:
+            if isinstance(st, ast.Assign) and isinstance(st.value, ast.Call) and call_name(st.value) == "draw_sample" and isinstance(st.targets[0], ast.Name):
+                fi_ = kwv(st.value, "from_inverse", 0)
+                draws[st.targets[0].id] = (src(st.value.func.value), fi_ in ("True",))
+        qe = [st for st in body if isinstance(st, ast.Assign) and isinstance(st.value, ast.Call) and call_name(st.value) == "QuadraticEnergy"]
+        key_ = f"{sd.key}::{label}"
+        if len(qe) != 1:
+            ctx.und("R18.3", key_, "QuadraticEnergy construction not found", sd)
+            return None
+        q = qe[0].value
+        return draws, q, key_, qe[0]
+    # start from zero: b ~ L+P, x0 = 0
+    from ..util import strip_not
+    _, pol = strip_not(ifs[0].test)
+    zero_body, dflt_body = (ifs[0].body, ifs[0].orelse) if pol else (ifs[0].orelse, ifs[0].body)
+    r_ = branch(zero_body, "start_from_zero: b drawn from L+P, CG starts at 0*b")
+    if r_:
+        draws, q, key_, st_ = r_
+        bn = src(q.args[2]) if len(q.args) > 2 else None
+        okz = draws.get(bn) == ("self._op", False) and src(q.args[1]) == "self._op" and _lin(q.args[0], {bn: "b"}, {}) == {} and not q.keywords
+        ctx.check("R18.3", key_, okz, src(q), sd, st_)
+    r_ = branch(dflt_body, "default: s ~ P^-1, n ~ L, b = P s + n, start at s with gradient L s - n")
+    if r_:
+        draws, q, key_, st_ = r_
+        sn = [k for k, v in draws.items() if v == ("self._prior", True)]
+        nj = [k for k, v in draws.items() if v == ("self._likelihood", False)]
+        okd = len(sn) == 1 and len(nj) == 1 and len(draws) == 2
+        if not okd:
+            ctx.bad("R18.3", key_, f"draws {draws}: expected one draw from the inverse prior metric and one from the likelihood metric", sd, st_)
+        else:
+            atoms = {sn[0]: "s", nj[0]: "n"}
+            bdef = [st for st in dflt_body if isinstance(st, ast.Assign) and len(q.args) > 2 and src(st.targets[0]) == src(q.args[2])]
+            bl = _lin(bdef[0].value, atoms, ops) if len(bdef) == 1 else None
+            x0 = _lin(q.args[0], atoms, ops)
+            g = [k.value for k in q.keywords if k.arg == "_grad"]
+            gl = _lin(g[0], atoms, ops) if g else None
+            want_b = {("P", "s"): Fraction(1), "n": Fraction(1)}
+            det = f"b = {bl}; x0 = {x0}; _grad = {gl}"
+            if bl is None or x0 is None or (g and gl is None):
+                ctx.und("R18.3", key_, det, sd, st_)
+            else:
+                # gradient of 1/2 x^T M x - b^T x at x0: M x0 - b
+                mx = {}
+                for k, v in x0.items():
+                    for o_ in ("L", "P"):
+                        mx[(o_, k)] = mx.get((o_, k), 0) + v
+                for k, v in bl.items():
+                    mx[k] = mx.get(k, 0) - v
+                mx = {k: v for k, v in mx.items() if v != 0}
+                ctx.check("R18.3", key_, bl == want_b and src(q.args[1]) == "self._op" and x0 == {"s": Fraction(1)} and (not g or gl == mx),
+                          det + f"; M x0 - b = {mx}", sd, st_)
+    rets = [r for r in handlers[0].body if isinstance(r, ast.Return)]
+    qes = [st for st in ast.walk(handlers[0]) if isinstance(st, ast.Assign) and isinstance(st.value, ast.Call) and call_name(st.value) == "QuadraticEnergy"]
+    en_names = {src(st.targets[0]) for st in qes}
+    b_names = {src(st.value.args[2]) for st in qes if len(st.value.args) > 2}
+    inv = [st for st in ast.walk(handlers[0]) if isinstance(st, ast.Assign) and isinstance(st.value, ast.Call) and isinstance(st.targets[0], ast.Tuple)
+           and st.value.args and src(st.value.args[0]) in en_names]
+    key = f"{sd.key}::returns (right-hand side, position of the CG result)"
+    ok = len(rets) == 1 and isinstance(rets[0].value, ast.Tuple) and len(rets[0].value.elts) == 2 and inv and len(en_names) == 1 and len(b_names) == 1 and \
+        all(src(st.targets[0].elts[0]) == src(inv[0].targets[0].elts[0]) for st in inv) and \
+        src(rets[0].value.elts[1]) == f"{src(inv[0].targets[0].elts[0])}.position" and src(rets[0].value.elts[0]) in b_names
+    ctx.check("R18.3", key, bool(ok), src(rets[0]) if rets else None, sd)
+
+
+_run_c18 = run
+
+
+def run(ctx):  # noqa: F811
+    _run_c18(ctx)
+    r18_3(ctx, ctx.model)
